@@ -37,6 +37,25 @@ ROWS = [
      "Service.any_extended_operations_methods = any(m.operation_service ...); extended_lro requires operation_service"),
     ("K-opsvc-any", M + r"\.operation_service$", True, r"{s}.any_extended_operations_methods", True,
      "Service.any_extended_operations_methods = any(m.operation_service for m in methods)"),
+    ("K-extlro-unary", M + r"\.extended_lro$", True, r"{m}.client_streaming", False,
+     "ASSUMPTION (domain): google.cloud.extended_operations annotations are defined for unary methods only"),
+    # -- auto-populated fields (method settings) -------------------------------------
+    ("K-autopop-any",
+     r"api\.all_method_settings\.get\((?P<m>.+)\.meta\.address\.proto\)\.auto_populated_fields$", True,
+     r"api.all_method_settings.values()|map(attribute='auto_populated_fields', default=[])|list()", True,
+     "a settings entry exists for the method, so the list over all_method_settings.values() is non-empty"),
+    ("K-autopop-notnone",
+     r"api\.all_method_settings\.get\((?P<m>.+)\.meta\.address\.proto\)\.auto_populated_fields$", True,
+     r"api.all_method_settings.get({m}.meta.address.proto) is none", False,
+     "attribute of None cannot be a non-empty list"),
+    ("K-autopop-unary-c",
+     r"api\.all_method_settings\.get\((?P<m>.+)\.meta\.address\.proto\)\.auto_populated_fields$", True,
+     r"{m}.client_streaming", False,
+     "API.enforce_valid_method_settings rejects auto_populated_fields on client-streaming methods"),
+    ("K-autopop-unary-s",
+     r"api\.all_method_settings\.get\((?P<m>.+)\.meta\.address\.proto\)\.auto_populated_fields$", True,
+     r"{m}.server_streaming", False,
+     "API.enforce_valid_method_settings rejects auto_populated_fields on server-streaming methods"),
     # -- flattened fields ------------------------------------------------------
     ("K-map-samepkg",
      r"ELEM\((?P<m>.+)\.flattened_fields\.values\(\)\)\.map$", True,
